@@ -176,6 +176,30 @@ def gen_aff(ctx, kind):
     return AffMap(A, b, box), [float(t) for t in v]
 
 
+def arg_forms(ctx, tol, mi):
+    """error_tol / max_iter / verbose / print_skip as Python or NumPy scalars"""
+    r = ctx.rng
+    f = [r.choice(["py", "np"]) for _ in range(4)]
+    ctx.count("arg-form:cfp-scalars:%s" % "".join(t[0] for t in f))
+    return (np.float64(tol) if f[0] == "np" else tol, r.choice([np.int64, np.int32])(mi) if f[1] == "np" else mi,
+            np.int64(1) if f[2] == "np" else 1, np.int32(5) if f[3] == "np" else 5)
+
+
+def v_form(ctx, T, v0):
+    """the starting point as ndarray / list / tuple, or (dimension 1, scalar flavour) as Python float / np.float64 / int"""
+    r = ctx.rng
+    if T.scalar:
+        x = v0[0]
+        forms = ["float", "np.float64"] + (["int", "np.int64"] if float(x).is_integer() else [])
+        form = r.choice(forms)
+        ctx.count("arg-form:v:scalar-%s" % form)
+        return {"float": float(x), "np.float64": np.float64(x), "int": int(x), "np.int64": np.int64(int(x))}[form] \
+            if form in ("float", "np.float64") or float(x).is_integer() else float(x)
+    form = r.choice(["ndarray", "ndarray", "list", "tuple"])
+    ctx.count("arg-form:v:%s" % form)
+    return np.array(v0) if form == "ndarray" else (list(v0) if form == "list" else tuple(v0))
+
+
 # ----------------------------------------------------------------------------
 # recording wrappers around the imitation-game internals
 
@@ -274,7 +298,7 @@ def gen_game(ctx):
     N = rng.choice([2, 2, 3, 3, 4])
     maxa = 4 if N <= 3 else 3
     nums = [rng.randint(1 if rng.random() < 0.1 else 2, maxa) for _ in range(N)]
-    kind = rng.choice(["int", "int", "dyadic", "float", "common", "neartie"])
+    kind = rng.choice(["int", "int", "dyadic", "float", "common", "neartie", "positive", "positive"])
     pays = []
     for i in range(N):
         shape = nums[i:] + nums[:i]
@@ -285,6 +309,8 @@ def gen_game(ctx):
             arr = [rng.randint(-40, 40) / 8.0 for _ in range(size)]
         elif kind == "float":
             arr = [rng.uniform(-1, 1) for _ in range(size)]
+        elif kind == "positive":    # strictly positive payoffs (a non-normalised profile can pass is_nash here)
+            arr = [float(rng.randint(1, 9)) for _ in range(size)]
         elif kind == "neartie":     # payoffs that differ by less / slightly more than Player.tol = 1e-8
             arr = [float(rng.randint(0, 1)) + rng.choice([0.0, 3e-9, -3e-9, 6e-9]) for _ in range(size)]
         else:
@@ -293,24 +319,87 @@ def gen_game(ctx):
     return nums, pays, kind
 
 
+INT_TYPES = [int, np.int8, np.int16, np.int32, np.int64, np.uint8, np.uint64, np.intp]
+
+
 def gen_init(ctx, nums):
+    """an initial profile in one of the argument forms the API accepts.
+    Returns (init object, wire forms for the model's `flatinit`, the profile it denotes as Fractions, description).
+    In the domain of the property: pure actions as integer-typed scalars (Python int, NumPy int8..int64, uint8/64,
+    intp - also as elements of an integer ndarray / list / tuple), mixed actions as 1-d float64 / float32 (dyadic) /
+    integer arrays, lists or tuples that are probability vectors."""
     rng = ctx.rng
-    init = []
+    N = len(nums)
+    # whole-profile forms: an integer ndarray of pure actions (its elements are NumPy integers)
+    if rng.random() < 0.25:
+        ty = rng.choice(INT_TYPES[1:])
+        acts = [rng.randrange(n) for n in nums]
+        cont = rng.choice(["ndarray", "tuple", "list"])
+        if cont == "ndarray":
+            init = np.array(acts, dtype=ty)
+        else:
+            init = [ty(a) for a in acts]
+            init = tuple(init) if cont == "tuple" else init
+        ctx.count("init-form:pure-profile:%s-of-%s" % (cont, np.dtype(ty).name))
+        return init, ["n%d" % a for a in acts], [[Fraction(int(k == a)) for k in range(n)] for a, n in zip(acts, nums)]
+    init, wire, denotes = [], [], []
     for n in nums:
         t = rng.random()
-        if t < 0.5:
-            init.append(rng.randrange(n))
-        elif t < 0.8:
-            w = [rng.randint(0, 4) for _ in range(n)]
-            if sum(w) == 0:
-                w[0] = 1
-            # dyadic weights summing to one exactly when the total is a power of two; else plain floats
-            s = sum(w)
-            init.append(np.array([x / s for x in w]))
+        if t < 0.45:
+            a = rng.randrange(n)
+            ty = rng.choice(INT_TYPES)
+            init.append(ty(a))
+            wire.append(("p%d" if ty is int else "n%d") % a)
+            denotes.append([Fraction(int(k == a)) for k in range(n)])
+            ctx.count("init-form:pure:%s" % ("int" if ty is int else np.dtype(ty).name))
         else:
-            w = np.array([rng.random() for _ in range(n)])
-            init.append(w / w.sum())
-    return init
+            if t < 0.75:
+                den = rng.choice([2, 4, 8])       # dyadic weights: exact in float32 as well
+                w = [0] * n
+                for _ in range(den):
+                    w[rng.randrange(n)] += 1
+                vals = [Fraction(x, den) for x in w]
+            elif t < 0.85:
+                a = rng.randrange(n)               # a pure action written as a 0/1 vector
+                vals = [Fraction(int(k == a)) for k in range(n)]
+            else:
+                wf = np.array([rng.random() for _ in range(n)])
+                wf = wf / wf.sum()
+                vals = [Fraction(float(x)) for x in wf]
+            dyadic = all(v.denominator in (1, 2, 4, 8) for v in vals)
+            zero_one = all(v in (0, 1) for v in vals)
+            forms = ["f64", "list", "tuple"] + (["f32"] if dyadic else []) + (["intarr", "intlist"] if zero_one else [])
+            form = rng.choice(forms)
+            fl = [float(v) for v in vals]
+            if form == "f64":
+                obj = np.array(fl)
+            elif form == "f32":
+                obj = np.array(fl, dtype=np.float32)
+            elif form == "list":
+                obj = fl
+            elif form == "tuple":
+                obj = tuple(fl)
+            elif form == "intarr":
+                obj = np.array([int(v) for v in vals], dtype=rng.choice([np.int64, np.int32, np.uint8]))
+            else:
+                obj = [int(v) for v in vals]
+            init.append(obj)
+            wire.append("v" + rats(vals))
+            denotes.append(vals)
+            ctx.count("init-form:mixed:%s" % form)
+    cont = rng.choice(["tuple", "list"])
+    return (tuple(init) if cont == "tuple" else init), wire, denotes
+
+
+def init_repr(init):
+    out = []
+    for t in init:
+        if isinstance(t, (list, tuple, np.ndarray)) and np.ndim(t) == 1:
+            out.append({"type": type(t).__name__ + (":" + str(t.dtype) if isinstance(t, np.ndarray) else ""),
+                        "value": [float(x) for x in t]})
+        else:
+            out.append({"type": type(t).__name__, "value": float(t)})
+    return {"container": type(init).__name__ + (":" + str(init.dtype) if isinstance(init, np.ndarray) else ""), "entries": out}
 
 
 def exact_payoff_vector(nums, pays_q, i, prof):
@@ -415,7 +504,8 @@ def run(ctx):
             ctx.count("iter:scalar-argument")
         with warnings.catch_warnings(record=True) as wl:
             warnings.simplefilter("always")
-            v = qe.compute_fixed_point(T, v0[0] if T.scalar else np.array(v0), tol, mi, 1, 5, "iteration")
+            a_tol, a_mi, a_vb, a_ps = arg_forms(ctx, tol, mi)
+            v = qe.compute_fixed_point(T, v_form(ctx, T, v0), a_tol, a_mi, a_vb, a_ps, "iteration")
         v = np.atleast_1d(v)
         warned = any(issubclass(w.category, RuntimeWarning) and "max_iter attained" in str(w.message) for w in wl)
         its = len(T.calls_in)
@@ -487,7 +577,8 @@ def run(ctx):
             ctx.count("ig:scalar-argument")
         with Recorder() as rec, warnings.catch_warnings(record=True) as wl:
             warnings.simplefilter("always")
-            v = qe.compute_fixed_point(T, v0[0] if T.scalar else np.array(v0), tol, mi, 1, 5, "imitation_game")
+            a_tol, a_mi, a_vb, a_ps = arg_forms(ctx, tol, mi)
+            v = qe.compute_fixed_point(T, v_form(ctx, T, v0), a_tol, a_mi, a_vb, a_ps, "imitation_game")
         warned = any(issubclass(w.category, RuntimeWarning) and "max_iter attained" in str(w.message) for w in wl)
         # T is evaluated twice at every visited point (line 191/228 and inside is_approx_fp)
         xs, ys = T.calls_in[::2], T.calls_out[::2]
@@ -574,9 +665,15 @@ def run(ctx):
         nums, pays, kind = gen_game(ctx)
         N = len(nums)
         g = NormalFormGame([Player(P) for P in pays])
-        init = gen_init(ctx, nums)
+        init, init_wire, init_denotes = gen_init(ctx, nums)
         eps = ctx.rng.choice([1e-2, 1e-3, 1e-4])
         mi = ctx.rng.choice([1, 2, 3, 5, 8, 20, 60, 200])
+        # epsilon / max_iter also as NumPy scalars
+        ef, mf = ctx.rng.choice(["float", "float64"]), ctx.rng.choice(["int", "int64", "int32"])
+        eps_arg = eps if ef == "float" else np.float64(eps)
+        mi_arg = mi if mf == "int" else (np.int64(mi) if mf == "int64" else np.int32(mi))
+        ctx.count("arg-form:epsilon:%s" % ef)
+        ctx.count("arg-form:max_iter:%s" % mf)
         visited, images, flags = [], [], []
 
         def brs(x, g, indptr=None):
@@ -592,20 +689,27 @@ def run(ctx):
         mt_mod._best_response_selection, mt_mod._is_epsilon_nash = brs, ien
         try:
             with Recorder() as rec:
-                NE, res = mt_mod.mclennan_tourky(g, init, eps, mi, full_output=True)
+                NE, res = mt_mod.mclennan_tourky(g, init, eps_arg, mi_arg, full_output=True)
         finally:
             mt_mod._best_response_selection, mt_mod._is_epsilon_nash = orig_brs, orig_eps
         xs, ys = visited, images
         pays_q = q_arrays(pays)
         epsq = Fraction(eps)
         replay = {"op": "mclennan_tourky", "nums": nums, "payoff_arrays": [P.tolist() for P in pays],
-                  "init": [t if isinstance(t, int) else list(map(float, t)) for t in init], "epsilon": eps, "max_iter": mi,
+                  "init": init_repr(init), "epsilon": eps, "max_iter": mi,
                   "NE": [list(map(float, a)) for a in NE], "converged": bool(res.converged), "num_iter": int(res.num_iter)}
         ctx.count("mt:N=%d" % N)
         ctx.count("mt:payoffs=%s" % kind)
         ctx.count("mt:converged" if res.converged else "mt:not-converged")
         ctx.count("mt:lh-passes", len(rec.steps))
         # --- spec
+        # the run starts from the profile the argument denotes (pure action k -> e_k, mixed action -> itself)
+        want0 = [t for blk in init_denotes for t in blk]
+        if len(xs) < 1 or F(xs[0]) != want0:
+            ctx.spec_fail("mt_init_profile", "the first point visited %s is not the initial profile given %s"
+                          % (list(map(float, xs[0])) if xs else None, [float(t) for t in want0]), replay)
+        cases.append(Case("C15 flatinit nums=%s init=%s" % (ints(nums), "|".join(init_wire)),
+                          rats(F(xs[0])) if xs else "-", nontrivial=any(w[0] != "p" for w in init_wire), tag="flatinit"))
         prof_q = [F(a) for a in NE]
         gain, _ = nash_margins(nums, pays_q, prof_q, epsq)
         if res.converged:
@@ -676,9 +780,14 @@ def run(ctx):
     for _ in range(ctx.n(150, 600)):
         nums, pays, kind = gen_game(ctx)
         g = NormalFormGame([Player(P) for P in pays])
-        init = gen_init(ctx, nums)
+        init, init_wire, init_denotes = gen_init(ctx, nums)
         indptr = np.concatenate([[0], np.cumsum(nums)])
         x = mt_mod._flatten_action_profile(init, indptr)
+        if F(x) != [t for blk in init_denotes for t in blk]:
+            ctx.spec_fail("flatten_action_profile", "_flatten_action_profile gave %s" % list(map(float, x)),
+                          {"nums": nums, "init": init_repr(init)})
+        cases.append(Case("C15 flatinit nums=%s init=%s" % (ints(nums), "|".join(init_wire)), rats(F(x)),
+                          nontrivial=any(w[0] != "p" for w in init_wire), tag="flatinit"))
         eps = ctx.rng.choice([1e-2, 1e-3, 1e-4, 0.5, 2.0])
         pays_q = q_arrays(pays)
         pq = split(nums, F(x))
@@ -761,7 +870,20 @@ def run(ctx):
         how_rec["piv"], how_rec["basis"] = [], None
         how_mod._pivoting, how_mod._get_solution = piv_rec, sol_rec
         try:
-            NE, res = polym_lcp_solver(pg, starting_player_actions=list(st), max_iter=cap, full_output=True)
+            sform = ctx.rng.choice(["list", "tuple", "ndarray", "0-d", "bool"])
+            sty = ctx.rng.choice(INT_TYPES)
+            if sform == "ndarray":
+                st_arg = np.array(st, dtype=(np.int64 if sty is int else sty))
+            elif sform == "0-d":
+                st_arg = [np.array(a, dtype=(np.int64 if sty is int else sty)) for a in st]
+            elif sform == "bool" and max(st) <= 1:
+                st_arg = [bool(a) for a in st]
+            else:
+                st_arg = [sty(a) for a in st]
+                st_arg = tuple(st_arg) if sform == "tuple" else st_arg
+            ctx.count("arg-form:polym-start:%s" % sform)
+            cap_arg = cap if ctx.rng.random() < 0.5 else np.int64(cap)
+            NE, res = polym_lcp_solver(pg, starting_player_actions=st_arg, max_iter=cap_arg, full_output=True)
         finally:
             how_mod._pivoting, how_mod._get_solution = orig_piv, orig_sol
         # --- correspondence: the N initial pivots are not part of the trace
@@ -900,6 +1022,36 @@ def run(ctx):
             if back and (kept < 6 or moved):
                 kept += 1
                 poly_case(N, nums, generic, mats, pg, matq, scale, st, cap=3000)
+
+    # init forms outside the documented domain ("an integer or an array of floats"): 0-d arrays, bools, float scalars.
+    # What the code does with them is part of the model (`flattenInitForms`) and compared exactly; no verdict of the
+    # property is attached (the start is not a profile of probability vectors).
+    for _ in range(ctx.n(40, 200)):
+        nums = [ctx.rng.randint(1, 4) for _ in range(ctx.rng.choice([2, 3, 4]))]
+        init, wire = [], []
+        for n in nums:
+            a = ctx.rng.randrange(n)
+            form = ctx.rng.choice(["0-d", "0-d-float", "bool", "np.bool_", "float", "np.float64", "int", "np.int16"])
+            if form == "0-d":
+                init.append(np.array(a)); wire.append("z%d" % a)
+            elif form == "0-d-float":
+                init.append(np.array(a / 2.0)); wire.append("z" + rat(Fraction(a, 2)))
+            elif form == "bool":
+                init.append(bool(a % 2)); wire.append("b%d" % (a % 2))
+            elif form == "np.bool_":
+                init.append(np.bool_(a % 2)); wire.append("B%d" % (a % 2))
+            elif form == "float":
+                init.append(float(a)); wire.append("s%d" % a)
+            elif form == "np.float64":
+                init.append(np.float64(a)); wire.append("s%d" % a)
+            elif form == "int":
+                init.append(a); wire.append("p%d" % a)
+            else:
+                init.append(np.int16(a)); wire.append("n%d" % a)
+            ctx.count("init-form:outside-domain:%s" % form)
+        indptr = np.concatenate([[0], np.cumsum(nums)])
+        x = mt_mod._flatten_action_profile(init, indptr)
+        cases.append(Case("C15 flatinit nums=%s init=%s" % (ints(nums), "|".join(wire)), rats(F(x)), tag="flatinit-outside-domain"))
 
     # mclennan_tourky argument checks
     for N, L in [(1, 1), (2, 1), (2, 3), (3, 3), (3, 2)]:
